@@ -432,3 +432,108 @@ func runLast(x *hist, g int, c lastCase, r *hx.Rng, genesisEach bool) {
 	x.allSign()
 	x.end()
 }
+
+// Upgrade-process stream: vote -> proposal passed, plan scheduled -> upgrade time: pause of the non-approving
+// voters -> upgrade, with one operation of the alphabet INSERTED BETWEEN each pair of phases; validator a
+// votes yes / no / holds the permission without voting / holds no permission; b votes yes.
+type upgCase struct {
+	vote  string // yes | no | silent | no-perm
+	pos   int    // 0 after the vote, 1 after the plan is scheduled, 2 after the pause (before the upgrade block)
+	x     string
+	start string // ACTIVE | PAUSED
+}
+
+var upgOps = []string{"rotate", "rotate-half-rr", "pause", "unpause", "evidence", "genesis-import", "claim-other", "reset"}
+
+func upgCases() []upgCase {
+	var out []upgCase
+	for _, st := range []string{"ACTIVE", "PAUSED"} {
+		for _, v := range []string{"yes", "no", "silent", "no-perm"} {
+			for pos := 0; pos < 3; pos++ {
+				for _, op := range upgOps {
+					out = append(out, upgCase{v, pos, op, st})
+				}
+			}
+		}
+	}
+	return out
+}
+
+func runUpg(x *hist, g int, c upgCase, r *hx.Rng) {
+	var o []int
+	for i := 0; i <= nCand; i++ {
+		if i != g {
+			o = append(o, i)
+		}
+	}
+	a, b, spare, other := o[0], o[1], o[2], o[3]
+	x.newBlock(5)
+	x.allSign()
+	x.claim(a, a, true)
+	x.claim(b, b, true)
+	x.end()
+	if c.start == "PAUSED" {
+		x.newBlock(5)
+		x.allSign()
+		x.ownerMsg("pause", a)
+		x.end()
+	}
+	ins := func(pos int) {
+		if pos != c.pos || x.dead {
+			return
+		}
+		switch c.x {
+		case "rotate":
+			x.rotate(a, spare)
+			a, spare = spare, a
+		case "rotate-half-rr":
+			x.rotateHalf(a, spare)
+			a, spare = spare, a
+		case "pause":
+			x.ownerMsg("pause", a)
+		case "unpause":
+			x.ownerMsg("unpause", a)
+		case "evidence":
+			x.evidence([][3]int64{{x.prev.Vals[a].Cons, x.h - 1, x.t - 1e9}})
+		case "genesis-import":
+			x.genesis(nil)
+		case "claim-other":
+			x.claim(other, other, true)
+		case "reset":
+			x.proposal("reset", 0)
+		}
+	}
+	// ---- vote
+	x.newBlock(5)
+	x.allSign()
+	var vs []int64
+	if c.vote == "no" || c.vote == "silent" {
+		vs = []int64{int64(a)}
+	}
+	x.upgradeVote(vs, x.t/1e9+100, r)
+	// a's exact behaviour: upgradeVote lets non-approvers vote no/abstain/veto or stay silent at random and
+	// gives approvers a yes vote or no permission at random; pin a's choice
+	pinVote(x, a, c.vote)
+	pinVote(x, b, "yes")
+	ins(0)
+	x.end()
+	// ---- the proposal passes, the plan is scheduled
+	x.newBlock(5)
+	x.allSign()
+	x.upgradeSchedule()
+	ins(1)
+	x.end()
+	// ---- upgrade time: pause of the non-approving voters
+	x.newBlock(120)
+	x.upgradeExecute()
+	x.allSign()
+	ins(2)
+	x.end()
+	// ---- the upgrade block and one more
+	x.newBlock(5)
+	x.allSign()
+	x.end()
+	x.newBlock(5)
+	x.allSign()
+	x.end()
+}
